@@ -219,8 +219,10 @@ def tasks(tier, seed):
     out.append(t("slate_PlackettLuce", S1, 1, by_bloc=True, from_params=True, split=4, weight=30))
     out.append(t("slate_PlackettLuce", {"X": ["x0", "x1"], "Y": ["y0"], "Z": ["z0"]}, 1, by_bloc=False, split=5, weight=40))
     if not q:
-        for cls in ("name_PlackettLuce", "slate_PlackettLuce", "slate_BradleyTerry", "AlternatingCrossover", "name_BradleyTerry"):
+        for cls in ("name_PlackettLuce", "slate_PlackettLuce", "slate_BradleyTerry", "AlternatingCrossover"):
             out.append(t(cls, S2, 1, by_bloc=True, split=6, weight=60))
+        # the 24-ranking Bradley-Terry table over symbolic supports costs minutes per path: concrete supports here
+        out.append(t("name_BradleyTerry", S2, 1, by_bloc=True, symbolic=False, split=2, weight=60))
         out.append(t("short_name_PlackettLuce", S2, 1, ballot_length=3, split=5, weight=40))
         out.append(t("short_name_PlackettLuce", S1, 2, ballot_length=1, split=3, weight=20))
         out.append(t("name_Cumulative", S1, 2, num_votes=3, split=4, weight=30))
